@@ -19,5 +19,13 @@ PROPS = {
                         "global convergence from an arbitrary start is NOT proved (fixed point, monotone responses and invariants are)"],
     },
 }
+PROPS["C16"] = {
+    "coq_deps": ["Base/GoInt.vo", "Gen/ServerGen.vo", "Cx/Exchange.vo", "Cx/ExchangeProofs.vo"],
+    "level_text": "Proof. The server's limit/guard/end arithmetic is TRANSLATED from certexchange/server.go on every run (uint64 wrap explicit); the inclusive GetRange, the client's sequencing loop and the poller loop are hand-written executable models. Coq proves: the served instances are exactly the stored ones from the requested instance, consecutive, exactly min(limit,256,pending-first) many, never at/after the advertised pending instance (for all first/limit/pending < 2^64 including wrap-around of first+limit); the client forwards only first, first+1, ... and at most limit; for ANY responder behaviour and any validation function the poller's store grows by exactly a sequentially valid prefix, NextInstance advances by its length, and an invalid certificate is never stored and yields PollIllegal. Real server (raw wire requester), real client and real poller (scripted malicious responder: forged, reordered, duplicated, gapped, reset, mis-advertised pending) over a libp2p mocknet are compared with the model inside Coq, and the wire is monitored against the property text.",
+    "level_note": "Trusted: Coq kernel, go2coq, the hand-written models of GetRange/client/poller (tied by correspondence only), cbor-gen codecs (C14), certificate validation itself (C04) enters as an arbitrary function. libp2p stream semantics not modelled.",
+    "technique": "Coq proof (translated server arithmetic + hand model of client/poller, induction over responses) + differential correspondence over mocknet",
+    "trusted_base": ["hand-written models of certstore.GetRange, Client.Request loop and Poller.Poll loop (tied by correspondence)", "libp2p mocknet"],
+    "assumptions": ["store holds a contiguous range [first,pending) (C09)"],
+}
 
 NOT_APPLICABLE = {}
